@@ -248,7 +248,7 @@ where
     let (flo, fhi) = shape.full();
     let h = shape.hue_index();
     // ---------------- Standard distribution: within bounds, for many RNG streams
-    let streams = ctx.n(40, 400);
+    let streams = ctx.n(40, 1000);
     let per = ctx.n(500, 5000);
     let mut hist = Hist::new();
     for s in 0..streams {
@@ -306,7 +306,7 @@ where
         u.cell_s(&format!("{}std", inst));
     }
     // ---------------- Uniform sampler between two colours
-    let ranges = ctx.n(150, 3000);
+    let ranges = ctx.n(150, 10_000);
     let per = ctx.n(60, 300);
     for ri in 0..ranges {
         let inclusive = ri % 2 == 1;
